@@ -74,7 +74,8 @@ def main(tier, replay=None):
 
     def tasks(tier, prop='C02'):
         return [{'kind': 'version', 'pragma': True, 'prop': 'C02'}, {'kind': 'version', 'pragma': False, 'prop': 'C02'},
-                {'kind': 'filestack', 't': {'part': 'new', 'n': 1}, 'prop': 'C02'}, {'kind': 'filestack', 't': {'part': 'new', 'n': 2}, 'prop': 'C02'}] + orig_tasks(tier, prop)
+                {'kind': 'filestack', 't': {'part': 'new', 'n': 1}, 'prop': 'C02'}, {'kind': 'filestack', 't': {'part': 'new', 'n': 2}, 'prop': 'C02'}] + orig_tasks('quick', prop) + \
+               ([t for t in orig_tasks('thorough', prop) if t['kind'] == 'main' and t['allow'] == 0 and sorted(t['codes']) == t['codes'] and t['codes'][0] == 0] if tier == 'thorough' else [])
     c3.tasks = tasks
     orig_scen = c3.scenario_of
 
